@@ -10,7 +10,7 @@ import time
 from .. import docgen, e2e
 from ..keyenc import key, unkey
 from ..runner import Check
-from ..translate import kwsites, versions
+from ..translate import headerflow, kwsites, versions
 from . import c19_hdr, c19_kw
 
 # ---------------------------------------------------------------- authored table (Python side, independent of
@@ -506,7 +506,10 @@ def search_dispatch(ck: Check) -> None:
         kw_first = kw_first or ck.driver.run(["version.refutekw"])[0].startswith("ok ")
     except Exception:  # noqa: BLE001
         pass
-    for hook in ([c19_kw.search_kw, search] if kw_first else [search, c19_kw.search_kw]):
+    hdr_first = any(t in ck.broken for t in ("header_flow_reviewed", "future_import_survives_header", "header_code_future_misplaced")) or any(
+        "header flow" in d.campaign for d in ck.disagreements)
+    for hook in ([c19_hdr.search_headers] if hdr_first else []) + ([c19_kw.search_kw, search] if kw_first else [search, c19_kw.search_kw]) + (
+            [] if hdr_first else [c19_hdr.search_headers]):
         hook(ck)
         if ck.failures:
             return
@@ -551,6 +554,7 @@ def run(ck: Check) -> None:
     quick = ck.tier == "quick"
     ck.translate("Versions", versions.generate())
     ck.translate("KwSites", kwsites.generate())
+    ck.translate("HeaderFlow", headerflow.generate())
     ck.prove()
     ck.assumptions += [
         "only Python 3.12 is installed: what 3.9/3.10/3.11/3.13 provide is an authored table (Lean: Model/Version.lean, Python: PY_SINCE), "
@@ -566,6 +570,7 @@ def run(ck: Check) -> None:
     campaign_e2e(ck, 25 if quick else 250, 5 if quick else 50)
     campaign_sequences(ck, 3 if quick else 9, 2 if quick else 8)
     c19_hdr.campaign_headers(ck, 2 if quick else 12)
+    c19_hdr.campaign_flow(ck, 12 if quick else 120)
     c19_kw.campaign_sites(ck)
     c19_kw.campaign_kw_flow(ck, 15 if quick else 150)
     ck.search_hooks.append(search_dispatch)
